@@ -230,9 +230,12 @@ type walRun struct {
 	heldVals    []heldVal
 	acked       map[uint64]string // entries acknowledged and not covered by a later DeleteRange call
 	// per-open true totals for C20
-	tot    map[string]uint64
-	encLen map[uint64]int // index -> length of the encoding an acknowledged StoreLogs wrote
-	out    []string
+	tot map[string]uint64
+	// index into cfs.acts of the first action after the last Open returned: the
+	// rotations of the current lifetime are the rotation commits from there on
+	openMark int
+	encLen   map[uint64]int // index -> length of the encoding an acknowledged StoreLogs wrote
+	out      []string
 }
 
 func walErrKind(err error) string {
@@ -350,6 +353,9 @@ func (r *walRun) open() string {
 		} else {
 			w, err = wal.Open("d", wal.WithSegmentFiler(sf), wal.WithMetaStore(ms), wal.WithSegmentSize(r.segSize), wal.WithMetricsCollector(r.t), wal.WithLogger(hclog.NewNullLogger()))
 		}
+	}
+	if r.cfs != nil {
+		r.openMark = r.cfs.nActions()
 	}
 	if err != nil {
 		r.w = nil
@@ -961,7 +967,17 @@ func (r *walRun) run() string {
 			}
 			for _, n := range counterNames {
 				if n == "segment_rotations" {
-					continue
+					// the truth comes from the persisted-metadata history: the commits crashfs
+					// recorded since the last Open that have the shape of a rotation (crashFS.isRotation,
+					// coq/Wal/MetricsSpec.v is_rotation; Props/C20.v C20_rotations_true)
+					if r.cfs == nil || r.everFaulted {
+						continue
+					}
+					r.tot[n] = r.cfs.rotationsSince(r.openMark)
+					r.c.stat("rotation_oracle_checks")
+					if r.tot[n] > 0 {
+						r.c.stat("rotation_oracle_checks_nonzero")
+					}
 				}
 				if r.t.get(n) != r.tot[n] && !r.everFaulted {
 					r.c.witness("C20", "counter-"+n, fmt.Sprintf("%s = %d, true total %d", n, r.t.get(n), r.tot[n]), r.line)
